@@ -534,7 +534,7 @@ func init() {
 			if tier == "thorough" {
 				return 300000
 			}
-			return 15000
+			return 60000
 		},
 		Run: c03Run,
 		Rule: "routes (2/3 of the cases): a target (harness probe tag/filter with invocation counters, or any registered tag/filter from the hook) is banned in a fresh set and used through a random route: 26 expression/filter-tag positions x up to 3 nesting levels drawn from if/else/elif, for/empty, with, macro body, block, filter tag, spaceless, autoescape, ifchanged, static include, lazy include, ssi parsed, parent template, child block, imported macro; " +
